@@ -9,12 +9,12 @@ CHECKS = {
  "C20": ("model_checking",
          "explicit-state BFS over operation sequences on the real HashSet vs a map model",
          "Every sequence of Add/Flush/reopen up to the stated depth over a 10-hash universe and batch sizes 1,2,3,1024 is executed on the real index.HashSet; states are deduplicated by raw file bytes + pending batch; membership, sortedness and fan-out are compared with a Go map after every step. Exhaustive within the depth bound, which is the right level for a small stateful structure whose bugs are order- and collision-dependent.",
-         "Trusted: the map model and the raw-file parser (60 lines); the memfile's os.File semantics (cross-checked by a real-file harness). Hashes outside the universe assumed to behave like universe hashes with the same ordering relations.",
+         "Trusted: the map model and the raw-file parser (60 lines); the memfile's os.File semantics (cross-checked by a real-file harness). Hashes outside the universe assumed to behave like universe hashes with the same ordering relations; bulk insertions are covered by a second family whose operations are whole runs of 256..600 hashes.",
          "DESIGN.md §4 C20"),
  "C15": ("model_checking",
-         "explicit-state BFS over mutator sequences on the real SQL ref store vs a map+log model",
-         "Every sequence of ref-store mutators up to the stated depth over names with '_', '%', case variants, nested paths and mutual prefixes is executed on the real SQL store (in-memory SQLite, repository schema); states are deduplicated by the dump of all refs and reflog rows; after every transition every observer (Get, log drain, Filter/FilterKey over all prefix/not-prefix pairs, list helpers) is compared with a plain map and per-name log slices.",
-         "Trusted: the 150-line map model; SQLite itself. Log metadata other than old/new values is not compared. File store (test-only code in this repository) is not covered by the BFS.",
+         "explicit-state BFS over mutator sequences on the real SQL ref store and the real file ref store vs a map+log model",
+         "Every sequence of ref-store mutators up to the stated depth over names with '_', '%', case variants, nested paths and mutual prefixes is executed on the real SQL store (in-memory SQLite, repository schema); states are deduplicated by the dump of all refs and reflog rows; after every transition every observer (Get, log drain, Filter/FilterKey over all prefix/not-prefix pairs, list helpers) is compared with a plain map and per-name log slices. Further searches start from refs that already carry logs of 17/9 and 129/65 entries. The file store (pkg/ref/fs) is searched the same way on a private directory (state = every file under refs/ and logs/), for the operations it implements.",
+         "Trusted: the 150-line map model; SQLite and the file system themselves. Log metadata other than old/new values is not compared. File store: Filter/FilterKey only for one prefix ending at a path separator and no exclusion; names where one ref would be a directory of another are not used.",
          "DESIGN.md §4 C15"),
  "C11": ("exploration",
          "bounded-exhaustive enumeration of all small commit DAGs x timestamp vectors against bitmask reachability",
@@ -23,8 +23,8 @@ CHECKS = {
          "DESIGN.md §4 C11"),
  "C08": ("exploration",
          "bounded-exhaustive enumeration of small commit DAGs x negotiation inputs against bitmask reachability, deviation-bounded secondary dimensions",
-         "All DAGs up to 4 (thorough 5) commits x ref tips x wants x haves x depth are enumerated completely and run through the real ClosedSetsFinder (one or two Process rounds); time order, unknown haves, have order, round split, done flag, a missing table and the iteration order of the want set (owned through a build-time overlay of the map range) are explored as bounded deviations from defaults. Closure, parent-first order, no unreachable commit, depth-limited tables, refusal of unreachable wants and a polynomial read count (ladders up to 20 diamonds) are checked on every case.",
-         "Trusted: bitmask reachability / BFS distance model; the in-memory object store and map-backed ref store (the finder only lists refs). Histories beyond 5 commits only as ladders.",
+         "All DAGs up to 4 (thorough 5) commits x ref tips x wants x haves x depth are enumerated completely and run through the real ClosedSetsFinder (one or two Process rounds); time order, unknown haves, have order, round split, done flag, a missing table and the iteration order of the want set (owned through a build-time overlay of the map range) are explored as bounded deviations from defaults. Closure, parent-first order, no unreachable commit, depth-limited tables, refusal of unreachable wants and a polynomial read count (ladders up to 20 diamonds) are checked on every case; linear histories of 1023..2100 commits (wants anywhere on the chain, one or two rounds) are judged by an index oracle.",
+         "Trusted: bitmask reachability / BFS distance model; the in-memory object store and map-backed ref store (the finder only lists refs). Histories beyond 5 commits only as ladders and linear chains.",
          "DESIGN.md §4 C08"),
  "C19": ("exploration",
          "bounded-exhaustive enumeration of row sequences x key x spill pattern x removed columns against sort+dedupe",
@@ -103,7 +103,7 @@ CHECKS = {
          "DESIGN.md §4 C13"),
  "C16": ("model_checking",
          "stateless model checking of the real goroutine pipelines under a controlled cooperative scheduler: DFS over scheduler decisions with preemption / delay bounding, vector-clock race detection",
-         "A build-time overlay routes every go statement, channel send / receive / range / close, reflect.Select, WaitGroup, Mutex lock and unlock operation of the ingest worker pool, sorter producer, differ, merger and row collector through a scheduler that runs one goroutine at a time and keeps channel contents itself; the explorer enumerates every schedule within the stated preemption (or, for the five-thread merger, delay) bound, including which ready select case fires and the iteration order of the merger's map. Each complete schedule must terminate, avoid send-on-closed / double close / deadlock, be free of happens-before races on the inserter's shared fields, return the single-worker result and surface injected store errors (single and persistent read faults in the merger). The progress bars that commit and merge drive (pkg/pbar) are checked by enumerating every short use of a bar under a build-time hang check. Every explored schedule is an execution of the repository's code. Unsynchronised accesses that a cooperative scheduler cannot see are covered by a separate cross-check: the same harness bodies run free (no scheduler) in a binary compiled with the Go race detector, several repetitions per configuration - that harness is a detector pass, not an enumeration of schedules, and is labelled as such in the evidence.",
+         "A build-time overlay routes every go statement, channel send / receive / range / close, reflect.Select, WaitGroup, Mutex lock and unlock operation of the ingest worker pool, sorter producer, differ, merger, row collector and the progress trackers (whose ticker becomes an environment thread ticking at moments the explorer chooses) through a scheduler that runs one goroutine at a time and keeps channel contents itself; the explorer enumerates every schedule within the stated preemption (or, for the five-thread merger, delay) bound, including which ready select case fires and the iteration order of the merger's map. Each complete schedule must terminate, avoid send-on-closed / double close / deadlock, be free of happens-before races on the inserter's shared fields, return the single-worker result and surface injected store errors (single and persistent read faults in the merger). The progress bars that commit and merge drive (pkg/pbar) are checked by enumerating every short use of a bar under a build-time hang check. Every explored schedule is an execution of the repository's code. Unsynchronised accesses that a cooperative scheduler cannot see are covered by a separate cross-check: the same harness bodies run free (no scheduler) in a binary compiled with the Go race detector, several repetitions per configuration - that harness is a detector pass, not an enumeration of schedules, and is labelled as such in the evidence.",
          "Trusted: the scheduler shim (450 lines) and the textual rewrite rules (fail-closed when a construct is not matched, and the overlaid build must compile). Sequential consistency at the granularity of rewritten operations; <= 3 workers, <= 3 blocks; Badger / progress-bar goroutines are outside the scheduler.",
          "DESIGN.md §4 C16"),
 }
